@@ -17,8 +17,10 @@ import (
 	"math/big"
 	"reflect"
 	"strconv"
+	"strings"
 
 	"github.com/getkin/kin-openapi/openapi3"
+	"github.com/getkin/kin-openapi/openapi3filter"
 
 	"kinverif/internal/hx"
 )
@@ -30,7 +32,7 @@ func init() {
 			"(12 object schemas with property defaults — valid, schema-violating, container, nested, read/write-only — alone, under not/items/additionalProperties/properties and in pairs under allOf/anyOf/oneOf, × 19 values); each case validated in seven ways " +
 			"(default, FailFast, MultiErrors, FailFast+MultiErrors, message customizer, IsMatching, typed IsMatchingJSON*); a schema with `default` also with DefaultsSet as request / response / plain (value after validation compared per mode); " +
 			"every *SchemaError returned directly or inside the MultiError is compared with the model's (SchemaField, JSON pointer, quoted value, order) and its pointer is resolved in the value after validation; " +
-			"each is then observed three more times (JSONPointer, the path printed by Error, JSONPointer again) and every observation must show the same, located pointer. " +
+			"each is then observed five more times (JSONPointer, the path printed by Error, JSONPointer, Source.Pointer of openapi3filter.ConvertErrors, JSONPointer) and every observation must show the same, located pointer. " +
 			"A family of Go values outside JSON (NaN, ±Inf at depth 0–2) is compared mode against mode only. Non-trivial = the schema has at least one keyword.",
 		Exhaustive: true,
 		Gen:        genC12,
@@ -194,7 +196,7 @@ func c12DescribeErr(err error, input any, customText string) map[string]any {
 	}
 	located := locatedAt(ptr)
 	// the error is an object the caller keeps: observe it again (the model's `reobsSeq`: JSONPointer, Error, Unwrap,
-	// JSONPointer) — every observation must show the same pointer, and the property's second sentence must hold for each
+	// JSONPointer, openapi3filter.ConvertErrors, JSONPointer) — every observation must show the same pointer, and the property's second sentence must hold for each
 	reobs := []any{}
 	if len(ptr) > 0 {
 		p2 := append([]string{}, se.JSONPointer()...)
@@ -205,7 +207,18 @@ func c12DescribeErr(err error, input any, customText string) map[string]any {
 		if customText != "" && txt == customText {
 			pe = ptr // the customised text shows no path; an error built without the customizer (the uncompilable-pattern error of schema_pattern.go) prints the usual text, whose path is checked as usual
 		}
-		for _, p := range [][]string{p2, pe, p3} {
+		// a rarely used reader of the same object: openapi3filter.ConvertErrors (Source.Pointer of the ValidationError)
+		p4 := []string{"<ConvertErrors gave no Source.Pointer>"}
+		conv := openapi3filter.ConvertErrors(&openapi3filter.RequestError{RequestBody: &openapi3.RequestBody{}, Err: se})
+		if ve, ok := conv.(*openapi3filter.ValidationError); ok && ve.Source != nil {
+			if ve.Source.Pointer == "/"+strings.Join(ptr, "/") {
+				p4 = ptr
+			} else {
+				p4 = []string{"<ConvertErrors Source.Pointer: " + c12Clip(ve.Source.Pointer) + ">"}
+			}
+		}
+		p5 := append([]string{}, se.JSONPointer()...)
+		for _, p := range [][]string{p2, pe, p3, p4, p5} {
 			if p == nil {
 				p = []string{}
 			}
@@ -213,7 +226,7 @@ func c12DescribeErr(err error, input any, customText string) map[string]any {
 			located = located && locatedAt(p)
 		}
 	} else {
-		reobs = append(reobs, []string{}, []string{}, []string{})
+		reobs = append(reobs, []string{}, []string{}, []string{}, []string{}, []string{})
 	}
 	d["reobs"] = reobs
 	d["located"] = located
@@ -459,7 +472,7 @@ func cmpC12(c hx.Case, impl any, reply map[string]any) hx.Verdict {
 			for k := range c12ReobsKeys(obs[mode]) {
 				if !mk[k] {
 					v.IM = false
-					v.Detail += fmt.Sprintf(" | mode %s: re-observing the same error (JSONPointer, Error, JSONPointer) shows %s, the model's errors never change", mode, k)
+					v.Detail += fmt.Sprintf(" | mode %s: re-observing the same error (JSONPointer, Error, JSONPointer, ConvertErrors, JSONPointer) shows %s, the model's errors never change", mode, k)
 				}
 			}
 		}
